@@ -91,6 +91,18 @@ if shutil.which("strace") and os.environ.get("VERIF_C17_MODEL_ONLY") != "1":
     if rc2 == 0 and norm(ops2) == stub_rename + stub_copy: validated += 1
     else: log("WARNING: copy-mode stub does not match the real go command:", ops2)
 
+    # the stub's third behaviour: an existing output that carries the expected build ID is left alone, whatever follows the ID
+    dprobe = g.newdir("probe"); write_module(dprobe, {"main.go": "package main\n\nfunc main() { println(2) }\n"})
+    tgt = os.path.join(g.root, "outC", "link"); os.makedirs(os.path.dirname(tgt), exist_ok=True)
+    pa = run(["go", "build", "-o", tgt, "."], cwd=dprobe, env=g.env(tmpdir=os.path.join(g.root, "tmp")), timeout=600)
+    if pa.returncode == 0:
+        full = read(tgt, "rb"); write(tgt, full[:len(full) // 2], "wb"); os.chmod(tgt, 0o755)
+        pb = run(["go", "build", "-o", tgt, "."], cwd=dprobe, env=g.env(tmpdir=os.path.join(g.root, "tmp")), timeout=600)
+        left_alone = pb.returncode == 0 and os.path.getsize(tgt) == len(full) // 2
+        log("go build -o over a truncated output with the right build ID: %s" % ("left alone (as the stub does)" if left_alone else "rewritten"))
+        if left_alone: validated += 1
+        else: log("WARNING: the real go command rewrites a truncated output; the stub's up-to-date shortcut does not match it")
+
 # ---- supplementary (sampling, not deciding): real concurrent builds from a linker-less GARBLE_CACHE
 import threading
 prog = {"main.go": "package main\n\nimport (\n\t\"fmt\"\n\t\"strings\"\n)\n\ntype T struct{ A int }\n\nfunc main() { fmt.Println(strings.ToUpper(\"conc\"), T{3}) }\n"}
